@@ -88,7 +88,7 @@ def units(tier, seed):
         # exactly-3-operator trees: enumerated per root constructor
         for ci in range(len(CONS)):
             us.append(('ops3', ci))
-    for i in range(16 if tier == 'quick' else 120):
+    for i in range(16 if tier == 'quick' else 480):
         us.append(('random', i))
     return us
 
